@@ -14,6 +14,7 @@ __all__ = [
 
 
 import collections
+import copy
 import re
 
 from .. import util
@@ -592,7 +593,9 @@ class PureLuaWriter(BaseLuaWriter):
         """
         toks = []
         for token in self._tokens:
-            toks.append(token)
+            # (line_to_pure_lua rewrites tokens in place. The token stream
+            # belongs to the Lua object.)
+            toks.append(copy.copy(token))
             if token.matches(lexer.TokNewline):
                 yield self.line_to_pure_lua(toks)
                 toks.clear()
